@@ -93,14 +93,15 @@ def run_property(prop, tier, seed, args):
                if (args.only is None or args.only in u.name)
                and (tier == "thorough" or not getattr(u, "thorough_only", False))]
     units, results = run_units(modname, indices, timeout_ms, budget_s, args.procs)
-    # vacuity: canaries (postcondition False must fail) for every unit that reached an exit
+    # vacuity: every unit must reach a function exit under satisfiable assumptions (there the postcondition `False` would
+    # fail), or already fail an obligation
     canary_idx = [i for i in indices if all_units[i].canary]
-    _, canaries = run_units(modname, canary_idx, timeout_ms, budget_s, args.procs, canary=True)
     canary_bad = []
     ncanary_ok = 0
-    for i, c in zip(canary_idx, canaries):
-        # a unit is non-vacuous if some path reaches an exit (canary fails there) or already fails an obligation
-        hit = any(a["sat"] > 0 for k, a in c["obs"].items())
+    for i, c in zip(indices, results):
+        if i not in canary_idx:
+            continue
+        hit = c.get("exit_sat") or any(a["sat"] > 0 for k, a in c["obs"].items())
         if c["status"] == "ok" and not hit:
             canary_bad.append(all_units[i].name)
         elif hit:
